@@ -92,3 +92,27 @@ package cram
 //@   decoder
 //@   requires b != nil
 //@   modifies b.blockData, b.method
+
+// Block.readFrom and Container.readFrom (C11): sizes decoded from the stream
+// are checked before they size an allocation.
+//@ trusted func ext:hash/crc32.NewIEEE
+//@   ensures result != nil
+//@ trusted func ext:io.TeeReader
+//@   ensures result != nil
+//@ trusted func ext:hash.Hash32.Sum32
+//@ trusted func ext:fmt.Errorf
+//@   ensures result != nil
+
+//@ func Block.readFrom
+//@   mode bv
+//@   props C11
+//@   decoder
+//@   requires b != nil
+//@   modifies all(b)
+
+//@ func Container.readFrom
+//@   mode bv
+//@   props C11
+//@   decoder
+//@   requires c != nil
+//@   modifies all(c)
